@@ -677,6 +677,35 @@ def _twin_chart_labels(how, mode):
     return Sink("%s.category-label+series-name twin(%s)" % (mode, how), fn, ok=lambda m: tw(m) != m)
 
 
+# ---- the same string assigned again (a no-op for the caller) ---------------------------------------------------
+# Assigning the value a field already holds must leave it readable: a setter that looks the new value up before it
+# releases the old one (shared relationship, shared string table entry) can release what it has just re-used.
+
+def _reassigned(kind):
+    def fn(prs, m, tmp):
+        slide = _blank(prs)
+        if kind == "run":
+            tb = _mk_shape(slide, "textbox")
+            r = tb.text_frame.paragraphs[0].add_run()
+            r.text = "link"
+            target = lambda sh: sh.text_frame.paragraphs[0].runs[0].hyperlink   # noqa: E731
+            shp = tb
+        else:
+            shp = _mk_shape(slide, "picture" if kind == "picture-click" else "autoshape")
+            target = lambda sh: sh.click_action.hyperlink   # noqa: E731
+        target(shp).address = m
+        target(shp).address = m
+        # a second link on the same slide is made afterwards: it must not disturb (or be confused with) the first
+        other = _mk_shape(slide, "autoshape")
+        other.click_action.hyperlink.address = "http://other.example/"
+
+        def rd(sl):
+            shapes = list(sl.shapes)
+            return (target(shapes[-2]).address, shapes[-1].click_action.hyperlink.address)
+        return (lambda: rd(slide)), (lambda p2, b: rd(p2.slides[0])), (m, "http://other.example/")
+    return Sink("hyperlink.address/%s re-assigned" % kind, fn)
+
+
 def twin_sinks():
     out = []
     for how in TWINS:
@@ -685,6 +714,8 @@ def twin_sinks():
         out.append(_twin_shape_names(how))
         for mode in ("add_chart", "replace_data"):
             out.append(_twin_chart_labels(how, mode))
+    for kind in ("shape-click", "picture-click", "run"):
+        out.append(_reassigned(kind))
     return out
 
 CAT_FIELDS = ["series-name", "category-label", "category-label-multilevel", "number-format",
@@ -879,6 +910,9 @@ def _work(part, chunk):
         part.add("fail", (sink.name, sink.variant, m, rule, msg))
 
 
+_PREFLIGHT_PROBLEMS = []
+
+
 def _check_families():
     """The hard-coded family table must describe the implementation (else the catalogue is vacuous)."""
     from pptx import Presentation
@@ -893,8 +927,12 @@ def _check_families():
                 raise HarnessError("XL_CHART_TYPE.%s no longer exists" % member)
             try:
                 ch = slide.shapes.add_chart(ct, 0, 0, 100, 100, _chart_data(kind, None, BENIGN)).chart
-            except Exception as e:
-                raise HarnessError("benign %s chart cannot be created: %r" % (member, e))
+            except Exception as e:  # noqa: BLE001
+                # the LIBRARY fails on a benign chart: the exploration reports it (every chart sink of that member
+                # fails with the benign string); run() insists that it was reported
+                _PREFLIGHT_PROBLEMS.append("benign %s chart cannot be created: %r" % (member, e))
+                n += 1
+                continue
             tags = [_local(e) for e in _xml(ch.part.blob).iter() if isinstance(e.tag, str)]
             if FAMILY_PLOT_TAG[family] not in tags:
                 raise HarnessError("chart type %s is not of family %s" % (member, family))
@@ -978,6 +1016,8 @@ def run(ctx):
     ctx.extra["failing_sinks"] = {k: len(v) for k, v in sorted(per_sink.items())}
     for sig, what, rp in reduce_failures(fails):
         ctx.violation(sig, what, rp)
+    if _PREFLIGHT_PROBLEMS and not fails:
+        raise HarnessError("; ".join(_PREFLIGHT_PROBLEMS[:3]))
 
     # the same image bytes under a second file name: the second picture's descr must be the second name
     for first, second in (("first.png", "second.png"), ("a&b.png", "c<d.png")):
